@@ -219,7 +219,7 @@ def run(ctx):
         raise lib.ModelFailure("too few round trips / accepted headers recorded: the recording is not exercising the code")
     ctx.exhaustive = False
     ctx.extra["line_alphabet"] = 62
-    ctx.extra["sequence_bound"] = "all sequences of <= %d physical lines over the 62-line alphabet (both with and without a final newline) + all of <= %d lines whose inner lines are among 18 core lines (11 for 5-line sequences)" % ((3, 4) if q else (4, 5))
+    ctx.extra["sequence_bound"] = "all sequences of <= %d physical lines over the 62-line alphabet (both with and without a final newline) + all of <= %d lines whose inner lines are among 11 core lines" % ((3, 4) if q else (4, 5))
     ctx.assumptions = ["memory safety is observed (ASan/UBSan) on the enumerated inputs only; coverage-guided byte-level fuzzing is a different technique and is not done"]
     return ctx.finish(rule="one evaluation = one recorded outcome of the real code (a line sequence fed to a real KeyParser, a mutated header fed to a real "
                            "Interfile reader, a parameter_info -> parse -> parameter_info round trip); distinct_nontrivial = distinct inputs validated")
